@@ -287,6 +287,83 @@ def intrinsic_job(job, acc: Acc):
         acc.sample({"intrinsic": name, "kind": kind, "document": text})
 
 
+# ------------------------------------------------------- diagnostics on continued statements
+# Diagnostics that are anchored on a word (undeclared dummy, declared twice, masking, unknown module, unknown type, INTENT
+# without argument) take their line and columns from where the word is found: the word is put on the first line or on
+# a continuation line, at a small or a large column, after 0-2 intervening comment / blank lines.
+DIAG_TEMPLATES = {
+    "undeclared_dummy": ["subroutine dsub(first_arg, @undeclared_dummy_name)", "  implicit none", "  integer :: first_arg", "end subroutine dsub"],
+    "declared_twice": ["subroutine dsub()", "  integer :: twice_declared", "  real :: other_one, @twice_declared", "end subroutine dsub"],
+    "masks_host": ["module dmod", "  integer :: masked_host_variable", "contains", "  subroutine dsub()", "    integer :: local_one, @masked_host_variable",
+                   "  end subroutine dsub", "end module dmod"],
+    "unknown_module": ["subroutine dsub()", "  use @module_that_does_not_exist", "end subroutine dsub"],
+    "unknown_type": ["module dtypes", "  type :: type_that_is_elsewhere", "    integer :: q", "  end type type_that_is_elsewhere", "end module dtypes",
+                     "subroutine dsub()", "  type(@type_that_is_elsewhere) :: v", "end subroutine dsub"],
+    "intent_not_argument": ["subroutine dsub(a)", "  integer :: a", "  integer, intent(in) :: b_one, @not_an_argument", "end subroutine dsub"],
+}
+
+
+def diag_cases():
+    for name in DIAG_TEMPLATES:
+        for brk in ("none", "before_word"):
+            for indent in ((0,) if brk == "none" else (2, 30, 70)):
+                for between in ((0,) if brk == "none" else (0, 1, 2)):
+                    for form in ("free",):
+                        yield (name, brk, indent, between)
+
+
+def diag_text(case):
+    name, brk, indent, between = case
+    out = []
+    for ln in DIAG_TEMPLATES[name]:
+        if "@" not in ln:
+            out.append(ln)
+            continue
+        head, tail = ln.split("@")
+        if brk == "none":
+            out.append(head + tail)
+        else:
+            out.append(head.rstrip() + " &")
+            out += ["", "  ! a comment between the lines of the statement"][:between]
+            out.append(" " * indent + tail)
+    return "\n".join(out) + "\n"
+
+
+def diag_job(case, acc: Acc):
+    text = diag_text(case)
+    sc = worker_scratch("c09diag")
+    sc.wipe()
+    root = os.path.join(sc.path, "ws")
+    os.makedirs(root)
+    path = os.path.join(root, "d.f90")
+    with open(path, "w") as fh:
+        fh.write(text)
+    clear_caches()
+    s = server_on(root, [])
+    n = 0
+    for o in s.open(path) + s.save(path):
+        if o.get("method") == "textDocument/publishDiagnostics":
+            diags = o["params"]["diagnostics"]
+            n = max(n, len(diags))
+            check_result(s, "diag_continuation", "publishDiagnostics", diags, o["params"]["uri"],
+                         {"case": list(case), "text": text, "method": "publishDiagnostics"}, acc,
+                         {"class": case[0], "break": case[1], "indent": case[2]}, view=lambda u: text.split("\n"))
+            # the flagged word: the range must cover it on its own line (where the statement says it is)
+            word = DIAG_TEMPLATES[case[0]][[i for i, l in enumerate(DIAG_TEMPLATES[case[0]]) if "@" in l][0]].split("@")[1].split(")")[0].split(" ")[0]
+            lines = text.split("\n")
+            for d in diags:
+                r = d["range"]
+                if r["start"]["line"] < len(lines) and r["start"]["character"] != r["end"]["character"]:
+                    got = lines[r["start"]["line"]][r["start"]["character"]:r["end"]["character"]]
+                    if r["start"]["line"] == r["end"]["line"] and word.lower() in d["message"].lower() and got.lower() != word.lower():
+                        acc.violation(Violation("diag_continuation", {"family": "diag_continuation", "method": "publishDiagnostics", "obs": "range_not_on_word",
+                                                                      "class": case[0], "break": case[1]}, {"case": list(case), "text": text},
+                                                word, {"range": r, "covers": got}, what=f"{case}: diagnostic about {word!r} covers {got!r}"))
+    acc.case(nontrivial_key=case if n else None, outcome=(case[0], n))
+    if len(acc.samples) < 1 and case[1] != "none":
+        acc.sample({"case": list(case), "text": text})
+
+
 # --------------------------------------------------------------------- sync
 # Ranges must address the document the *client* holds: the synchronised text of an open document, the file of a
 # closed one.  Histories of didOpen / ranged didChange / didSave / didClose on two small files, then every
@@ -441,6 +518,8 @@ def main(ctx):
     names = intrinsic_names()
     iacc = core.pmap(intrinsic_job, names, chunk=4, budget_s=600, label="C09/intrinsics")
     ctx.add_family("intrinsics", iacc, names=len(names))
+    dacc = core.pmap(diag_job, list(diag_cases()), chunk=2, budget_s=120, label="C09/diag")
+    ctx.add_family("diag_continuation", dacc, templates=len(DIAG_TEMPLATES))
     depth = 3 if q else 4
     hs = sync_histories(depth)
     sacc = core.pmap(sync_job, hs, chunk=4, budget_s=900, label="C09/sync")
@@ -466,6 +545,9 @@ def replay(rec):
     elif fam == "mutants":
         m = re.match(r"(.*) \[(\w+) line (\d+)\]", c["file"])
         mutant_job((m.group(1), m.group(2), int(m.group(3))), acc)
+    elif fam == "diag_continuation":
+        diag_job(tuple(c["case"]), acc)
+        return [v.to_json("C09") for v in acc.violations] or None
     elif fam == "sync":
         sync_job(tuple(tuple(e) for e in c["history"]), acc)
         return [v.to_json("C09") for v in acc.violations
